@@ -64,6 +64,8 @@ def validate(ctx, plan, name, max_rounds=4):
         evs = sl.slice_history(trace, rep, r)
         single = dict(plan)
         single["histories"] = [plan["histories"][h]]
+        # the same payload contents as in the run that was rejected (the driver derives them from the history index)
+        single["ver_base"] = plan["ver_base"] if plan.get("ver_base") is not None else (h * 5) % 44
         single["max_points"] = 0
         # FS-operation indexes can shift by background work: replay the point and its neighbours
         single["points"] = [p for p in range(max(1, k - 3), k + 4)] if k else [1]
@@ -158,6 +160,17 @@ def check(ctx):
     big = plan_base([big_history(2300)], 60 if thorough else 16, ctx.seed)
     big["ids"] = ["i1", "b0000", "b1001", "b2299"]
     validate(ctx, big, "bigrebuild")
+    # one history whose single batches exceed the store's internal batch-size limit (10 MiB): records padded
+    # to 48 KiB, one batch of 260 (12.5 MiB) after a small one; sampled crash points.  "A mutation is applied
+    # completely or not at all" has no size bound.
+    fat = plan_base([[
+        {"op": {"op": "addbatch", "sigs": [{"id": "f%03d" % i, "topo": "tA", "fuzzy": "fX", "ent": sl.E["2.5"], "tol": 0, "ver": 0} for i in range(3)]}},
+        {"op": {"op": "addbatch", "sigs": [{"id": "f%03d" % i, "topo": ["tA", "tB"][i % 2], "fuzzy": "fX", "ent": sl.E["2.5"] + i % 5, "tol": 0, "ver": 0}
+                                            for i in range(260)]}},
+        {"op": {"op": "delete", "id": "f001"}}]], 40 if thorough else 12, ctx.seed)
+    fat["ids"] = ["f000", "f001", "f128", "f259"]
+    fat["pad"] = 48 * 1024
+    validate(ctx, fat, "fatbatch")
     evs = vlib.read_ndjson(trace)
     inflights = [e for e in evs if e.get("inflight")]
     kinds = {}
